@@ -31,7 +31,7 @@ theorem LawfulArith.eq_ofField {α : Type} [Field α] [LinearOrder α] [A : Arit
   subst h1 h2 h3 h4 h5 h6 h7 h8 h9 h10 h11
   rfl
 
-theorem gridPoint_length {α : Type} (coords : List (List α)) (g : List Nat) (xs : List α)
+theorem gridPoint_length_grid {α : Type} (coords : List (List α)) (g : List Nat) (xs : List α)
     (h : gridPoint coords g = some xs) : xs.length = coords.length := by
   induction coords generalizing g xs with
   | nil => cases g <;> simp_all [gridPoint]
@@ -53,8 +53,8 @@ section
 variable {α : Type} [Field α] [LinearOrder α] [A : Arith α] [L : LawfulArith α]
 
 /-- `Π_d B_d(idx_d, x_d)` with the right-continuous basis of `grideval` -/
-def basisProd : List (Dim α) → List α → List Nat → α
-  | d :: ds, x :: xs, i :: is => Bind (indR d.knots x) d.knots x d.order i * basisProd ds xs is
+def gridBasisProd : List (Dim α) → List α → List Nat → α
+  | d :: ds, x :: xs, i :: is => Bind (indR d.knots x) d.knots x d.order i * gridBasisProd ds xs is
   | _, _, _ => 1
 
 theorem gridRows_fst (dims : List (Dim α)) (xs : List α) (h : xs.length = dims.length) :
@@ -91,18 +91,18 @@ theorem stridesRowMajor_iff (dims : List (Dim α)) (hne : dims ≠ []) (hs : Str
 
 theorem rowProd_gridRows (dims : List (Dim α)) (xs : List α) (idx : List Nat)
     (h : IdxIn idx (dims.map (·.naxes))) :
-    rowProd (gridRows dims xs) idx = basisProd dims xs idx := by
+    rowProd (gridRows dims xs) idx = gridBasisProd dims xs idx := by
   induction dims generalizing xs idx with
-  | nil => cases xs <;> cases idx <;> simp [gridRows, rowProd, basisProd]
+  | nil => cases xs <;> cases idx <;> simp [gridRows, rowProd, gridBasisProd]
   | cons d ds ih =>
     cases xs with
-    | nil => cases idx <;> simp [gridRows, rowProd, basisProd]
+    | nil => cases idx <;> simp [gridRows, rowProd, gridBasisProd]
     | cons x xs =>
       cases idx with
       | nil => simp [IdxIn] at h
       | cons i is =>
         rw [List.map_cons, idxIn_cons] at h
-        simp only [gridRows, rowProd, basisProd, ih xs is h.2]
+        simp only [gridRows, rowProd, gridBasisProd, ih xs is h.2]
         congr 1
         simp [List.getD_eq_getElem?_getD, h.1]
 
@@ -150,7 +150,7 @@ theorem gridSpec_flat_ofField [L : LawfulArith α] (dims : List (Dim α)) (coef 
     (hne : dims ≠ []) (hs : StridesRowMajor dims) (hx : xs.length = dims.length) :
     gridSpec dims coef xs
       = ∑ q ∈ Finset.range (prodL (dims.map (·.naxes))),
-          coef (q : Int) * basisProd dims xs (digits (dims.map (·.naxes)) q) := by
+          coef (q : Int) * gridBasisProd dims xs (digits (dims.map (·.naxes)) q) := by
   unfold gridSpec
   have hstr : (gridRows dims xs).map Prod.fst = rowMajor ((gridRows dims xs).map fun r => r.2.length) := by
     rw [gridRows_fst dims xs hx, gridRows_len dims xs hx]; exact stridesRowMajor_iff dims hne hs
@@ -171,7 +171,7 @@ theorem gridSpec_flat (dims : List (Dim α)) (coef : Int → α) (xs : List α)
     (hne : dims ≠ []) (hs : StridesRowMajor dims) (hx : xs.length = dims.length) :
     gridSpec dims coef xs
       = ∑ q ∈ Finset.range (prodL (dims.map (·.naxes))),
-          coef (q : Int) * basisProd dims xs (digits (dims.map (·.naxes)) q) := by
+          coef (q : Int) * gridBasisProd dims xs (digits (dims.map (·.naxes)) q) := by
   have hA := LawfulArith.eq_ofField (α := α) (A := A)
   subst hA
   exact gridSpec_flat_ofField dims coef xs hne hs hx
